@@ -498,6 +498,7 @@ pub fn cmd_fuzz(a: &Args) {
 	let bases = bases.into_inner().unwrap();
 	// a hung read leaves a spinning thread behind: after a few hangs (already reported) stop exploring
 	let hangs = std::sync::atomic::AtomicUsize::new(0);
+	let nfill = std::sync::atomic::AtomicUsize::new(0);
 	// second pass: every LOGGER_STRIDE-th base file again with a logger installed at trace level
 	let ls = crate::LOGGER_STRIDE.load(std::sync::atomic::Ordering::SeqCst);
 	for logging in [false, true] {
@@ -526,7 +527,9 @@ pub fn cmd_fuzz(a: &Args) {
 					}
 					let mut muts = mutants_of(base, &mut r, nrandom);
 					if i % 3 == 0 {
-						muts.extend(string_fill_mutants(&db, base));
+						let sm = string_fill_mutants(&db, base);
+						nfill.fetch_add(sm.len(), std::sync::atomic::Ordering::Relaxed);
+						muts.extend(sm);
 					}
 					for (what, m) in muts {
 						if hangs.load(std::sync::atomic::Ordering::SeqCst) >= 3 {
@@ -550,7 +553,7 @@ pub fn cmd_fuzz(a: &Args) {
 	});
 	}
 	crate::set_logging(false);
-	sink.summary(json!({"base_files": bases.len()}));
+	sink.summary(json!({"base_files": bases.len(), "string_field_fills": nfill.load(std::sync::atomic::Ordering::Relaxed)}));
 }
 
 /// Grammar-aware corruption of the metadata element: every byte of it replaced by every value, and every position
@@ -611,6 +614,7 @@ pub fn cmd_meta_fuzz(a: &Args) {
 /// Builds a file whose metadata is nested `depth` deep and reads it in a CHILD process so that a
 /// stack overflow (process abort) is observed as data.
 pub fn cmd_deep_meta(a: &Args) {
+	let mut hung = false;
 	let db = LayoutDb::load(a.req("layout"));
 	let sink = Sink::new(a.get("replay-dir").unwrap_or("work/replays"));
 	let depths: Vec<usize> = a.get("depths").unwrap_or("10,100,126,127,128,1000,5000,20000,100000,1000000").split(',').map(|s| s.parse().unwrap()).collect();
@@ -635,10 +639,26 @@ pub fn cmd_deep_meta(a: &Args) {
 		sink.count(d as u64, true);
 		sink.sample(|| json!({"metadata_nesting_depth": d, "file_len": built.bytes.len()}));
 		for mode in ["slp", "slp-to-slpp"] {
-			let out = std::process::Command::new(&exe).args(["probe-read", "--file", &path, "--mode", mode]).output();
+			// (a child that does not finish within a minute is killed and reported as a hang)
+			let out = (|| -> std::io::Result<Option<std::process::Output>> {
+				let mut child = std::process::Command::new(&exe).args(["probe-read", "--file", &path, "--mode", mode]).stdout(std::process::Stdio::piped()).stderr(std::process::Stdio::null()).spawn()?;
+				let t0 = std::time::Instant::now();
+				loop {
+					if child.try_wait()?.is_some() {
+						return child.wait_with_output().map(Some);
+					}
+					if t0.elapsed() > Duration::from_secs(60) {
+						child.kill().ok();
+						child.wait().ok();
+						return Ok(None);
+					}
+					std::thread::sleep(Duration::from_millis(20));
+				}
+			})();
 			let v = match out {
 				Err(e) => Some(viol("deep_metadata", "probe", "err", format!("cannot run probe: {}", e))),
-				Ok(o) => {
+				Ok(None) => Some(viol("deep_metadata", &format!("mode:{},depth>={}", mode, bucket(d)), "hang", format!("depth {}: the read did not return within 60 s", d))),
+				Ok(Some(o)) => {
 					use std::os::unix::process::ExitStatusExt;
 					let stdout = String::from_utf8_lossy(&o.stdout).to_string();
 					if let Some(sig) = o.status.signal() {
@@ -654,9 +674,15 @@ pub fn cmd_deep_meta(a: &Args) {
 			};
 			if let Some(v) = v {
 				sink.report(&v, &|| json!({"depth": d, "file": path}));
+				if v.kind == "hang" {
+					hung = true;
+				}
 			}
 		}
 		std::fs::remove_file(&path).ok();
+		if hung {
+			break; // every further depth would wait a minute as well
+		}
 	}
 	sink.summary(json!({}));
 }
